@@ -81,6 +81,13 @@ func (k KerberosProxy) Handler(w http.ResponseWriter, r *http.Request) {
 		return
 	}
 
+	// the kerberos message carries a 4 byte length prefix
+	if len(msg.Message) < 4 {
+		log.Printf("kerberos message too short: %d bytes", len(msg.Message))
+		http.Error(w, "Invalid request", http.StatusBadRequest)
+		return
+	}
+
 	krb5resp, err := k.forward(msg.Realm, msg.Message)
 	if err != nil {
 		log.Printf("cannot forward to kdc due to %s", err)
@@ -130,8 +137,9 @@ func (k *KerberosProxy) forward(realm string, data []byte) (resp []byte, err err
 	}
 
 	replies := make(chan []byte, len(kdcs))
+	started := 0
 	for i := range kdcs {
-		conn, err := net.Dial(kdcs[i].Proto, kdcs[i].Host)
+		conn, err := net.DialTimeout(kdcs[i].Proto, kdcs[i].Host, timeout)
 
 		if err != nil {
 			log.Printf("error connecting to %s due to %s, trying next if available", kdcs[i], err)
@@ -153,16 +161,21 @@ func (k *KerberosProxy) forward(realm string, data []byte) (resp []byte, err err
 
 		kdcs[i].Conn = conn
 		go awaitReply(conn, kdcs[i].Proto == "udp", replies)
+		started++
 	}
 
-	reply := <-replies
+	// wait for the first reply, but only for kdcs that were actually asked
+	var reply []byte
+	for i := 0; i < started && reply == nil; i++ {
+		reply = <-replies
+	}
 
-	// close all the connections and return the first reply
+	// close all the connections and return the first reply; the channel is
+	// buffered so the remaining readers end without being waited for
 	for kdc := range kdcs {
 		if kdcs[kdc].Conn != nil {
 			kdcs[kdc].Conn.Close()
 		}
-		<-replies
 	}
 
 	if reply != nil {
